@@ -69,7 +69,7 @@ impl BlockReader {
     pub fn file_offset_at_block_offset_self(&self, blockoffset: BlockOffset) -> (r: FileOffset) ensures r <= u64::MAX / 2 { unimplemented!() }   // file offsets fit in 63 bits
 
     #[verifier::exec_allows_no_decreases_clause]
-    pub fn gz_fill_block(&mut self, bo_at: BlockOffset, blockoffset: BlockOffset, blockoffset_last: BlockOffset) -> (r: ResultS3ReadBlock)
+    pub fn gz_fill_block(&mut self, carried: usize, bo_at: BlockOffset, blockoffset: BlockOffset, blockoffset_last: BlockOffset) -> (r: ResultS3ReadBlock)
         requires old(self).blocksz <= u64::MAX / 2, old(self).gz.pos <= old(self).gz.data.len()
         ensures
             final(self).gz.data == old(self).gz.data,
@@ -78,6 +78,8 @@ impl BlockReader {
                 && final(self).gz.pos == old(self).gz.pos + old(self).bsz_at(bo_at),
     {
         let ghost d = self.gz.data; let ghost p0 = self.gz.pos; let ghost want = self.bsz_at(bo_at);
+        // the per-block locals, declared here with an arbitrary earlier value: a counter carried over from the previous block is not 0
+        let mut bytes_read_actual: usize = carried; let mut reads_actual: usize = carried;
 //@cut slice path=src/readers/blockreader.rs impl=BlockReader fn=read_block_FileGz anchor="let blocksz_u: usize = self.blocksz_at_blockoffset(" take=range end_anchor="while bytes_read_actual < bytes_read_expect" label=GZ-FILL
 //@replace "(self .gz .as_mut() .unwrap() .decoder) .read(buf[..readsz].as_mut())" "verif_gz_read(&mut self.gz, &mut buf, readsz)" ws=1
 //@replace "self.count_bytes_read += size_ as Count;" "verif_count_add(&mut self.count_bytes_read, size_ as Count);" count=*
@@ -121,7 +123,7 @@ impl BlockReader {
     pub fn path(&self) -> (r: &FPath) { unimplemented!() }
     /// the same for a bzip2 file: read_block_FileBz2 reads straight into the tail of the block
     #[verifier::exec_allows_no_decreases_clause]
-    pub fn bz2_fill_block(&mut self, bo_at: BlockOffset, blockoffset: BlockOffset, blockoffset_last: BlockOffset) -> (r: ResultS3ReadBlock)
+    pub fn bz2_fill_block(&mut self, carried: usize, bo_at: BlockOffset, blockoffset: BlockOffset, blockoffset_last: BlockOffset) -> (r: ResultS3ReadBlock)
         requires old(self).gz.pos <= old(self).gz.data.len()
         ensures
             final(self).gz.data == old(self).gz.data,
@@ -129,6 +131,7 @@ impl BlockReader {
                 && final(self).gz.pos == old(self).gz.pos + old(self).bsz_at(bo_at),
     {
         let ghost d = self.gz.data; let ghost p0 = self.gz.pos; let ghost want = self.bsz_at(bo_at);
+        let mut bytes_read: usize = carried;   // see gz_fill_block
 //@cut slice path=src/readers/blockreader.rs impl=BlockReader fn=read_block_FileBz2 anchor="let blocksz_u: usize = self.blocksz_at_blockoffset(" take=stmt label=BZ2-SIZE
 //@end
 //@cut slice path=src/readers/blockreader.rs impl=BlockReader fn=read_block_FileBz2 anchor="let mut block = Block::with_capacity(blocksz_u);" take=range end_anchor="while bytes_read < blocksz_u" label=BZ2-FILL
@@ -158,7 +161,7 @@ impl BlockReader {
     /// block may come out short only when the decoder reported the end of the data (the checks that follow in the function then
     /// turn a short block that is not the file's last into an error)
     #[verifier::exec_allows_no_decreases_clause]
-    pub fn lz4_fill_block(&mut self, bo_at: BlockOffset, blockoffset: BlockOffset, blockoffset_last: BlockOffset) -> (r: ResultS3ReadBlock)
+    pub fn lz4_fill_block(&mut self, carried: usize, bo_at: BlockOffset, blockoffset: BlockOffset, blockoffset_last: BlockOffset) -> (r: ResultS3ReadBlock)
         requires old(self).gz.pos <= old(self).gz.data.len(), !old(self).gz.eof_seen
         ensures
             final(self).gz.data == old(self).gz.data,
@@ -168,6 +171,7 @@ impl BlockReader {
                 && (r->Found_0@.len() == old(self).bsz_at(bo_at) || final(self).gz.eof_seen),
     {
         let ghost d = self.gz.data; let ghost p0 = self.gz.pos; let ghost want = self.bsz_at(bo_at);
+        let mut bytes_read: usize = carried;   // see gz_fill_block
 //@cut slice path=src/readers/blockreader.rs impl=BlockReader fn=read_block_FileLz4 anchor="let blocksz_u: usize = self.blocksz_at_blockoffset(" take=stmt label=LZ4-SIZE
 //@end
 //@cut slice path=src/readers/blockreader.rs impl=BlockReader fn=read_block_FileLz4 anchor="let mut block = Block::with_capacity(blocksz_u);" take=range end_anchor="while bytes_read < blocksz_u" label=LZ4-FILL
